@@ -1602,23 +1602,25 @@ def enum_cases(maxlen):
     return out
 
 
-def run(ctx):
-    cases = corpus_cases()
-    ctx.hist("corpus", len(cases))
-    evaluate(ctx, cases)
-    en = enum_cases(ctx.n(2, 3))
-    ctx.hist("enumerated-values", sum(len(c["new"]) - 1 for c in en))
-    for i in range(0, len(en), 600):
-        evaluate(ctx, en[i:i + 600])
-    budget = [("emit", ctx.n(2400, 60000)), ("stack", ctx.n(160, 4000)), ("cli", ctx.n(96, 3000)), ("acts", ctx.n(800, 30000)),
-              ("shellf", ctx.n(1200, 60000)), ("shell", ctx.n(2000, 100000))]
-    for kind, n in budget:
-        done = 0
-        batch = 600 if kind not in ("stack", "cli") else 48
-        while done < n and not ctx.out_of_time():
-            k = min(batch, n - done)
+QUICK = [("emit", 2400, 600), ("stack", 160, 40), ("cli", 96, 24), ("acts", 800, 400), ("shellf", 1200, 400), ("shell", 2000, 500)]
+THOROUGH = [("emit", 60000, 600), ("stack", 4000, 48), ("cli", 3000, 48), ("acts", 30000, 600), ("shellf", 60000, 600),
+            ("shell", 100000, 600)]
+
+
+def run_stream(ctx, budget):
+    """The generated stream, round-robin over the case classes: every class gets a slice per round, so that a time limit
+    (loaded machine, enlarged budget) starves none of them."""
+    done = {k: 0 for k, _, _ in budget}
+    while not ctx.out_of_time() and any(done[k] < n for k, n, _ in budget):
+        for kind, n, batch in budget:
+            if done[kind] >= n or ctx.out_of_time():
+                continue
+            k = min(batch, n - done[kind])
             evaluate(ctx, [gen_case(ctx.rng, kind) for _ in range(k)])
-            done += k
+            done[kind] += k
+
+
+def check_floors(ctx):
     h = ctx.histogram
     if h.get("delta:in-claim", 0) < 0.2 * max(1, h.get("kind=emit", 0) + h.get("kind=acts", 0)):
         raise common.InfraError("degenerate distribution: %d deltas inside the claim" % h.get("delta:in-claim", 0))
@@ -1645,6 +1647,30 @@ def run(ctx):
                                 "backslash or a double quote" % h.get("delta:quoted-value-with-shell-special-text", 0))
     if h.get("quoted-value", 0) < 0.2 * max(1, h.get("kind=emit", 0)):
         raise common.InfraError("degenerate distribution: %d cases with a quoted value" % h.get("quoted-value", 0))
+
+
+def run(ctx):
+    """The ordinary quick portion first and completely - corpus, the enumeration slice, the generated stream of every class,
+    the distribution floors - and only then whatever the thorough tier (or a quick run escalated because the mirrored
+    source changed) adds."""
+    cases = corpus_cases()
+    ctx.hist("corpus", len(cases))
+    evaluate(ctx, cases)
+    en = enum_cases(2)
+    ctx.hist("enumerated-values", sum(len(c["new"]) - 1 for c in en))
+    for i in range(0, len(en), 600):
+        evaluate(ctx, en[i:i + 600])
+    run_stream(ctx, QUICK)
+    check_floors(ctx)
+    if ctx.tier == "thorough" or ctx.escalated:
+        if not ctx.out_of_time():
+            en = enum_cases(3)[len(en):]
+            ctx.hist("enumerated-values", sum(len(c["new"]) - 1 for c in en))
+            for i in range(0, len(en), 600):
+                if ctx.out_of_time():
+                    break
+                evaluate(ctx, en[i:i + 600])
+        run_stream(ctx, [(k, n - dict((a, b) for a, b, _ in QUICK)[k], batch) for k, n, batch in THOROUGH])
 
 
 def replay(ctx, rp):
